@@ -114,6 +114,10 @@ def classify(rc, out, err):
             kind = "runError"
         else:
             kind = "diagnostics"
+            # every location the diagnostics show names a file: it must be the user's file, never <builtin> (C14)
+            locs = re.findall(r"-> ([^:\s]+):(\d+)", err)
+            if any(n == "<builtin>" or not n.endswith(".hcl") for n, _ in locs):
+                kind = "diagnosticsMislocated"
     elif rc == 0 and ("halted in state" in out or "timed out after" in out or "error caused in state" in out):
         kind = "finalState"
         # the LAST dump is the final report
